@@ -19,6 +19,8 @@ type c11BigCase struct {
 	Pad    int    // bytes of padding in every key
 	Tail   string // none | cas-fails | pine-fails | cas-holds
 	Pre    int    // keys written before (small batch)
+	// Dels: the big batch deletes N keys written beforehand (in several ordinary batches) instead of putting N keys
+	Dels bool `json:",omitempty"`
 }
 
 func genC11Big(t *rapid.T) interface{} {
@@ -30,6 +32,9 @@ func genC11Big(t *rapid.T) interface{} {
 	}
 	c.Tail = rapid.SampledFrom([]string{"none", "cas-fails", "cas-fails", "pine-fails", "cas-holds"}).Draw(t, "tail")
 	c.Pre = rapid.IntRange(1, 5).Draw(t, "pre")
+	if c.Pad == 0 && DrawBool(t, 50, "dels") {
+		c.Dels = true
+	}
 	return c
 }
 
@@ -50,14 +55,30 @@ func runC11Big(ci interface{}, st *CaseStats) error {
 	if err := pre.Commit(ctx); err != nil {
 		return Inconclusivef("prelude: %v", err)
 	}
+	pad := strings.Repeat("k", c.Pad)
+	if c.Dels {
+		for i := 0; i < c.N; i += 10000 {
+			pb := kv.BeginBatchWrite()
+			for j := i; j < i+10000 && j < c.N; j++ {
+				pb.Put([]byte(fmt.Sprintf("c11/big/%s/%07d", pad, j)), []byte("v"), 0)
+			}
+			if err := pb.Commit(ctx); err != nil {
+				return Inconclusivef("populate: %v", err)
+			}
+		}
+		st.Label("big-batch-of-deletes")
+	}
 	before, err := c11Dump(kv)
 	if err != nil {
 		return Inconclusivef("dump: %v", err)
 	}
-	pad := strings.Repeat("k", c.Pad)
 	b := kv.BeginBatchWrite()
 	for i := 0; i < c.N; i++ {
-		b.Put([]byte(fmt.Sprintf("c11/big/%s/%07d", pad, i)), []byte("v"), 0)
+		if c.Dels {
+			b.Del([]byte(fmt.Sprintf("c11/big/%s/%07d", pad, i)))
+		} else {
+			b.Put([]byte(fmt.Sprintf("c11/big/%s/%07d", pad, i)), []byte("v"), 0)
+		}
 	}
 	mustFail := false
 	switch c.Tail {
@@ -75,7 +96,7 @@ func runC11Big(ci interface{}, st *CaseStats) error {
 	if err != nil {
 		return Inconclusivef("dump: %v", err)
 	}
-	what := fmt.Sprintf("batch of %d puts (%d-byte keys) + %s: Commit returned %v", c.N, c.Pad+20, c.Tail, cerr)
+	what := fmt.Sprintf("batch of %d %s (%d-byte keys) + %s: Commit returned %v", c.N, map[bool]string{false: "puts", true: "deletes"}[c.Dels], c.Pad+20, c.Tail, cerr)
 	if mustFail && cerr == nil {
 		return fmt.Errorf("%s although its condition does not hold", what)
 	}
@@ -98,6 +119,9 @@ func runC11Big(ci interface{}, st *CaseStats) error {
 	}
 	// all of it must be there
 	want := len(before) + c.N
+	if c.Dels {
+		want = len(before) - c.N
+	}
 	if len(after) != want {
 		return fmt.Errorf("%s, but the store holds %d records instead of %d", what, len(after), want)
 	}
@@ -110,7 +134,7 @@ func runC11Big(ci interface{}, st *CaseStats) error {
 
 var specC11Big = &Spec{
 	ID:      "C11",
-	Rule:    "big-batch mode: case = one batch of 20..400 puts with 1..32 KiB keys, or 20 000..120 000 small puts (around and beyond what Badger takes in one transaction), optionally ended by a compare-and-swap / put-if-absent whose condition fails or holds. Oracle: Commit returns an error whenever a condition fails; after an error the store is byte-identical to before, after success every record of the batch is there. Non-trivial = the batch was refused; distinct = SHA-1 of the case",
+	Rule:    "big-batch mode: case = one batch of 20..400 puts with 1..32 KiB keys, or 20 000..120 000 small puts or deletes of existing keys (around and beyond what Badger takes in one transaction), optionally ended by a compare-and-swap / put-if-absent whose condition fails or holds. Oracle: Commit returns an error whenever a condition fails; after an error the store is byte-identical to before, after success every record of the batch is there. Non-trivial = the batch was refused; distinct = SHA-1 of the case",
 	Gen:     genC11Big,
 	New:     func() interface{} { return &c11BigCase{} },
 	Run:     runC11Big,
